@@ -36,39 +36,40 @@ type AssertAt struct {
 }
 
 type Contract struct {
-	Key      string
-	PkgRel   string // package path relative to module (or full path for external)
-	Props    []string
-	Mode     Mode
-	ModeSet  bool
-	Trusted  bool
-	Pure     bool
-	MayPanic bool
-	Requires []Clause
-	Ensures  []Clause
-	Modifies []Clause // each a designator expression; nil + ModNothing
-	ModSet   bool     // a modifies clause was given
-	ModAny   bool     // "modifies unspecified": no frame claim; callers havoc the heap
-	Loops    map[int]*LoopSpec
-	Asserts  []AssertAt
-	Nilable  map[string]bool
-	Params   []string // for trusted externals without source
-	File     string
-	Line     int
-	Inline   bool // force inlining at call sites even though a contract exists (contract is then only checked)
+	Key        string
+	PkgRel     string // package path relative to module (or full path for external)
+	Props      []string
+	Mode       Mode
+	ModeSet    bool
+	Trusted    bool
+	Pure       bool
+	MayPanic   bool
+	Requires   []Clause
+	Ensures    []Clause
+	Modifies   []Clause // each a designator expression; nil + ModNothing
+	ModSet     bool     // a modifies clause was given
+	ModAny     bool     // "modifies unspecified": no frame claim; callers havoc the heap
+	Loops      map[int]*LoopSpec
+	Asserts    []AssertAt
+	Nilable    map[string]bool
+	Callbacks  map[string]bool // function-typed parameters assumed not to write the heap
+	Params     []string        // for trusted externals without source
+	File       string
+	Line       int
+	Inline     bool // force inlining at call sites even though a contract exists (contract is then only checked)
 	NoOverflow bool // int mode: assume no 64-bit overflow silently? (never set silently; listed in evidence)
 }
 
 type SpecFn struct {
-	Name    string
-	PkgRel  string
-	Params  []*ast.Field
-	Result  ast.Expr
-	Body    ast.Expr
-	Src     string
-	File    string
-	Line    int
-	Opaque  bool // declared without body (uninterpreted)
+	Name   string
+	PkgRel string
+	Params []*ast.Field
+	Result ast.Expr
+	Body   ast.Expr
+	Src    string
+	File   string
+	Line   int
+	Opaque bool // declared without body (uninterpreted)
 }
 
 type Lemma struct {
@@ -298,6 +299,15 @@ func (w *World) parseContractFile(path, pkgRel string) error {
 			case "nilable":
 				for _, p := range strings.Split(rest, ",") {
 					cur.Nilable[strings.TrimSpace(p)] = true
+				}
+			case "readonly_callback":
+				// readonly_callback f: calls through the function-typed parameter f are assumed not to write the heap
+				// (a stated assumption about the caller's argument; the result is arbitrary)
+				if cur.Callbacks == nil {
+					cur.Callbacks = map[string]bool{}
+				}
+				for _, p := range strings.Split(rest, ",") {
+					cur.Callbacks[strings.TrimSpace(p)] = true
 				}
 			case "requires", "ensures":
 				cl, err := parseClause(rest, path, rl.line)
